@@ -4,6 +4,7 @@ import (
 	"bytes"
 	"encoding/json"
 	"errors"
+	"fmt"
 	"io"
 	"strings"
 	"sync"
@@ -29,7 +30,8 @@ var (
 	trOn     bool
 	// progress watch: site -> last measure; a repeated measure at a loop head is a stall
 	stallWatch map[string][2]int64
-	// MaxEvents bounds a single op's trace (a runaway loop is a stall, not an OOM)
+	// maxEvents bounds a single op's trace (a runaway loop is a stall, not an OOM). A scanner may emit one event for
+	// every byte or two it steps over, so the bound grows with the input: 2,000,000 + 4 events per input byte.
 	maxEvents = 2_000_000
 )
 
@@ -48,7 +50,7 @@ func sink(pkg, ev string, a ...int64) {
 	trMu.Unlock()
 	if n > maxEvents {
 		// remembered here as well: the library may recover the panic (ScanJPEG, ParseXmp do) and turn it into an error
-		stalled = "more than 2,000,000 hook events in one call at " + pkg + "." + ev
+		stalled = fmt.Sprintf("more than %d hook events (2,000,000 + 4 per input byte) in one call at %s.%s", maxEvents, pkg, ev)
 		panic(stallPanic(stalled))
 	}
 }
@@ -61,8 +63,9 @@ var (
 	trCountOnly bool
 )
 
-func startTrace(countOnly bool) {
+func startTrace(countOnly bool, inputLen int) {
 	trMu.Lock()
+	maxEvents = 2_000_000 + 4*inputLen
 	stalled = ""
 	trCount, trCountOnly = 0, countOnly
 	trEvents = nil
